@@ -1,10 +1,14 @@
 """Implementation driver for C14, object shapes: a package tree on disk, an accept list, a list of root functions of one module.
-stdin: {"root": dir, "accept": [...], "module": "vpipe.main", "roots": [function names], "store_dir": dir | None}
+stdin: {"root": dir, "accept": [...], "module": "vpipe.main", "roots": [function names], "store_dir": dir | None,
+        "paths": [more sys.path entries: directories or zip files, searched after root] (optional),
+        "data_targets": ["module:function", ...] (optional)}
 Every root function g is evaluated with dds.keep("/out_<g>", g) (each keep is its own evaluation), then executed plainly.
 -> {g: {"sig": signature committed for /out_<g>, "value": repr of what dds.keep returned, "plain": repr of g(),
         "error": None | "dds:<code>:<text>" | "exc:<type>:<text>"}}
 With a store_dir the local file store of that directory is used (it persists between processes: a later process sees the
-blobs of the earlier ones, so a stale value is observable); without it a fresh memory store."""
+blobs of the earlier ones, so a stale value is observable); without it a fresh memory store.
+Every data target (a function decorated with dds.data_function) is called directly after the roots:
+-> "__data__": {target: {"value": repr | None, "error": None | "dds:<code>:<text>" | "exc:<type>:<text>"}}."""
 import importlib
 import json
 import os
@@ -15,6 +19,7 @@ import warnings
 def main():
     payload = json.load(sys.stdin)
     sys.path.insert(0, payload["root"])
+    sys.path[1:1] = payload.get("paths") or []
     warnings.simplefilter("ignore")
     import dds
     from dds.store import LocalFileStore, MemoryStore
@@ -54,6 +59,16 @@ def main():
         except BaseException as e:  # noqa
             res["plain"] = "exc:" + type(e).__name__ + ":" + str(e)[:200]
         out[g] = res
+    for t in payload.get("data_targets") or []:
+        res = {"value": None, "error": None}
+        try:
+            mname, fname = t.split(":")
+            res["value"] = repr(getattr(importlib.import_module(mname), fname)())
+        except DDSException as e:
+            res["error"] = "dds:" + (e.error_code.name if getattr(e, "error_code", None) is not None else "NONE") + ":" + str(e)[:400]
+        except BaseException as e:  # noqa
+            res["error"] = "exc:" + type(e).__name__ + ":" + str(e)[:300]
+        out.setdefault("__data__", {})[t] = res
     print("@@RESULT@@" + json.dumps(out))
 
 
